@@ -29,7 +29,7 @@ UNITS = [
         requires_target=FB_TARGET, requires=['g_clock < ' + BIG],
         assigns=[REQ] + REC_ASSIGNS,
         ensures=with_lock('self->_locked',
-                          [('C06,C02', '%s._b0.origin == %s && %s._b0.destination == stateId_ && %s._b0.method == Method__NONE && !%s.payloadSet' % (REQ, ORIGIN, REQ, REQ, REQ))]
+                          [('C06,C02,C11', '%s._b0.origin == %s && %s._b0.destination == stateId_ && %s._b0.method == Method__NONE && !%s.payloadSet' % (REQ, ORIGIN, REQ, REQ, REQ))]
                           + [e for e in logged(1, ORIGIN, 'stateId_', SELF_CORE + '->logger')],
                           [t_eq(REQ, '__CPROVER_old(%s)' % REQ)])),
              ['C02', 'C06', 'C16', 'C18']),
@@ -90,7 +90,7 @@ UNITS += [
         requires=['g_clock < ' + BIG, 'g_j < sizeof(*payload)'],
         assigns=['self->_b0._b0._b0._core->request'] + REC_ASSIGNS,
         ensures=with_lock('self->_b0._locked',
-                          [('C06,C07', 'self->_b0._b0._b0._core->request._b0.origin == self->_b0._b0._b0._originId && self->_b0._b0._b0._core->request._b0.destination == stateId_ && self->_b0._b0._b0._core->request.payloadSet && self->_b0._b0._b0._core->request._b0.method == Method__NONE'),
+                          [('C06,C07,C11', 'self->_b0._b0._b0._core->request._b0.origin == self->_b0._b0._b0._originId && self->_b0._b0._b0._core->request._b0.destination == stateId_ && self->_b0._b0._b0._core->request.payloadSet && self->_b0._b0._b0._core->request._b0.method == Method__NONE'),
                            ('C07', 'self->_b0._b0._b0._core->request.storage[g_j] == ((const uint8_t*)payload)[g_j]')]
                           + logged(1, 'self->_b0._b0._b0._originId', 'stateId_', 'self->_b0._b0._b0._core->logger'),
                           [t_eq('self->_b0._b0._b0._core->request', '__CPROVER_old(self->_b0._b0._b0._core->request)')])),
